@@ -4,6 +4,9 @@
 //!   scale.text <font 0..3|null> <baseline> <align> <lh kind> <lh value> <colours mask> x y <codepoints>
 //!   scale.image <bits> <order> w h x y sx sy sw sh tx ty tw th     image, sub-image, nested sub-image, pixel()
 //!   scale.reject <kind> ...                      out-of-range coordinates / indices are rejected without a panic
+//!     kind `drawsub <bits> <order> <via> x y w h`: a DIRECT `ImageDrawable::draw_sub_image(&image, &mut target, &area)`
+//!     on a 5 x 3 `ImageRaw` (via 0) or on its sub-image (1, 1) 3 x 2 (via 1) — `sub_image()` crops its area, a direct call
+//!     does not: nothing may be drawn unless the area lies completely inside the image, then exactly the area's pixels
 //!   scale.adapter <root box> <stack> <job>       shapes / images / text / target calls drawn through clipped, cropped,
 //!                                                translated, colour-converted targets and stacks of them (m_scale_adapter.rs)
 //!
@@ -250,6 +253,31 @@ impl Module for M {
                 for w in [0i64, 1, 4, 5, 1024, u32::MAX as i64] {
                     for h in [0i64, 1, 3, 4, u32::MAX as i64] {
                         emit(format!("scale.reject sub {} {} {} {}", x, y, w, h));
+                    }
+                }
+            }
+        }
+        // direct `draw_sub_image` calls: negative corners by 1..=size, touching the edges, beyond right / bottom, zero
+        // sizes, extreme corners, huge sizes (the panics of the tree before /repo a083ac5 are in corpus/C08.ops)
+        let dxs: [i64; 17] = [i32::MIN as i64, -(1 << 31) + 1, -65536, -6, -5, -4, -1, 0, 1, 2, 4, 5, 6, 65536, (1 << 31) - 6, (1 << 31) - 2, i32::MAX as i64];
+        let dys: [i64; 13] = [i32::MIN as i64, -65536, -4, -3, -1, 0, 1, 2, 3, 4, 65536, (1 << 31) - 2, i32::MAX as i64];
+        let dws: [i64; 12] = [0, 1, 2, 3, 4, 5, 6, 65536, (1 << 31) - 1, 1 << 31, u32::MAX as i64 - 1, u32::MAX as i64];
+        let dhs: [i64; 8] = [0, 1, 2, 3, 4, 65536, 1 << 31, u32::MAX as i64];
+        let mut k = 0u64;
+        for (bits, order) in [(1u32, 0u32), (1, 1), (2, 0), (2, 1), (4, 0), (4, 1), (8, 0), (16, 0), (16, 1), (24, 0), (24, 1)] {
+            for via in 0..2 {
+                for &x in &dxs {
+                    for &y in &dys {
+                        for &w in &dws {
+                            for &h in &dhs {
+                                let small = x.abs() <= 6 && y.abs() <= 4 && w <= 6 && h <= 4;
+                                k += 1;
+                                // exhaustive over the small values for the first image, a sample elsewhere
+                                if small && bits == 1 && order == 0 && (tier != Tier::Quick || k % 2 == 0) || small && k % 25 == 0 || !small && k % (if tier == Tier::Quick { 211 } else { 41 }) == 0 {
+                                    emit(format!("scale.reject drawsub {} {} {} {} {} {} {}", bits, order, via, x, y, w, h));
+                                }
+                            }
+                        }
                     }
                 }
             }
@@ -594,6 +622,58 @@ impl Module for M {
                         ctx.expect(allocs == 0, "C08:heap-allocation", || format!("{}", allocs));
                         ctx.expect(bb.is_zero_sized() || (bb.size.width <= 5 && bb.size.height <= 3), "C08:sub-image-larger-than-parent", || fmt_rect(&bb));
                         format!("ok bb={} n={}", fmt_rect(&bb), d.n)
+                    }
+                    "drawsub" => {
+                        let bits = t.u32();
+                        let order = t.u32();
+                        let via = t.u32();
+                        let area = Rectangle::new(Point::new(t.i64() as i32, t.i64() as i32), Size::new(t.i64() as u32, t.i64() as u32));
+                        macro_rules! ds {
+                            ($c:ty, $o:ty) => {{
+                                let data: Vec<u8> = (0..64u32).map(|i| (i * 37 + 11) as u8).collect();
+                                let size = Size::new(5, 3);
+                                let len = ((5 * bits as usize + 7) / 8) * 3;
+                                let raw = ImageRaw::<$c, $o>::new(&data[..len], size).unwrap();
+                                let mut rec = R2::<$c>::unbounded();
+                                // (ix, iy, iw, ih): the image the call addresses, in coordinates of `raw`
+                                let (ox, oy, iw, ih) = if via == 0 { (0i64, 0i64, 5i64, 3i64) } else { (1, 1, 3, 2) };
+                                if via == 0 {
+                                    raw.draw_sub_image(&mut rec, &area).unwrap();
+                                } else {
+                                    let sub = raw.sub_image(&Rectangle::new(Point::new(1, 1), Size::new(3, 2)));
+                                    sub.draw_sub_image(&mut rec, &area).unwrap();
+                                }
+                                let (x, y, w, h) = (area.top_left.x as i64, area.top_left.y as i64, area.size.width as i64, area.size.height as i64);
+                                // a sub-image hands the area on to its parent: "inside" refers to the parent for via 1
+                                // (the sub-image's own box does not clip a direct call), so both readings are reported
+                                let inside_parent = w > 0 && h > 0 && x + ox >= 0 && y + oy >= 0 && x + ox + w <= 5 && y + oy + h <= 3;
+                                let inside_own = w > 0 && h > 0 && x >= 0 && y >= 0 && x + w <= iw && y + h <= ih;
+                                ctx.count(if inside_parent { "reject:drawsub-inside" } else { "reject:drawsub-outside" });
+                                if !inside_parent {
+                                    ctx.expect(rec.rec.log.is_empty(), "C08:drawsub-outside-area-drawn", || format!("{} calls", rec.rec.log.len()));
+                                } else {
+                                    let want: Vec<u32> = (0..h).flat_map(|r| (0..w).map(move |c| (c, r))).map(|(c, r)| raw.pixel(Point::new((x + ox + c) as i32, (y + oy + r) as i32)).unwrap().num()).collect();
+                                    let ok = rec.rec.log.len() == 1 && rec.rec.log[0] == Call::FillContiguous(Rectangle::new(Point::zero(), area.size), want.clone());
+                                    ctx.expect(ok, "C08:drawsub-inside-area-wrong-pixels", || rec.rec.log.iter().map(|c| c.fmt()).collect::<Vec<_>>().join("|"));
+                                }
+                                format!("ok inside={} own={} calls={}", inside_parent as u8, inside_own as u8, rec.rec.log.len())
+                            }};
+                        }
+                        match (bits, order) {
+                            (1, 0) => ds!(BinaryColor, LittleEndianMsb0),
+                            (1, _) => ds!(BinaryColor, BigEndianLsb0),
+                            (2, 0) => ds!(Gray2, LittleEndianMsb0),
+                            (2, _) => ds!(Gray2, BigEndianLsb0),
+                            (4, 0) => ds!(Gray4, LittleEndianMsb0),
+                            (4, _) => ds!(Gray4, BigEndianLsb0),
+                            (8, 0) => ds!(Gray8, LittleEndianMsb0),
+                            (8, _) => ds!(Gray8, BigEndianLsb0),
+                            (16, 0) => ds!(Rgb565, LittleEndianMsb0),
+                            (16, _) => ds!(Rgb565, BigEndianLsb0),
+                            (24, 0) => ds!(Rgb888, LittleEndianMsb0),
+                            (24, _) => ds!(Rgb888, BigEndianLsb0),
+                            (other, _) => panic!("scale.reject drawsub: no colour type with {} bits", other),
+                        }
                     }
                     other => panic!("unknown reject kind {}", other),
                 }
